@@ -516,8 +516,17 @@ def pairing(an, rep):
                 i1, i2 = p.events.index(pushes[0]), p.events.index(pops[0])
                 R2.check(all(i1 < p.events.index(s) < i2 for s in subs) and len(subs) == 1, b.key, "write inside buffer",
                          "the field value is not serialized between push_buffer and pop_buffer")
-                took = [guards.norm(e[5][1]) for e in p.events if e[0] == "call" and "IndexMut" in e[2]]
-                R2.check(len(took) == 2 and took[0] == took[1], b.key, "slot restore", "the buffer is not put back into the "
+                idx = [e for e in p.events if e[0] == "call" and "IndexMut" in e[2]]
+                took = [guards.norm(e[5][1]) for e in idx]
+                same = len(took) == 2 and took[0] == took[1]
+                if len(idx) == 1:
+                    # one `&mut self.buffers[k]` used for both the take() and the write back
+                    site = idx[0][1]
+                    from_slot = lambda t: any(x[0] == "call" and "IndexMut" in x[1] and x[4] == site for x in mir.walk_expr(t))
+                    takes = [e for e in p.events if e[0] == "call" and e[2] == "Option<T>::take" and from_slot(e[5][0])]
+                    backs = [s_ for s_ in p.stores() if from_slot(s_[1]) and "pop_buffer" in show(s_[2])]
+                    same = len(takes) == 1 and len(backs) == 1
+                R2.check(same, b.key, "slot restore", "the buffer is not put back into the "
                          "slot it was taken from (%s)" % took, sample={"fn": b.key, "slot": str(took[:1])})
     return R
 
@@ -583,5 +592,26 @@ def chunks_skipped(an, rep):
                     found = True
         if found:
             break
+    if not found:
+        # `while steps.len() < stored_version as usize + 1 { steps.push(read step) }`
+        def plus_one_of_version(t):
+            t = strip_refs(t)
+            if t[0] == "bin" and t[1] in ("Add", "AddWithOverflow") and guards.rng(t[3]) == (1, 1):
+                x = strip_refs(t[2])
+                while x[0] == "cast":
+                    x = strip_refs(x[4])
+                if x[0] == "call" and x[1].endswith("::from") and x[3]:
+                    x = strip_refs(x[3][0])
+                return x[0] == "arg" and (x[2] == "stored_version" or (len(x) > 3 and x[3] == "u8"))
+            return False
+        for p in paths:
+            for a in p.atoms():
+                c = a[1]
+                if c[0] == "bin" and c[1] in ("Lt", "Gt", "Ne", "Ge", "Le"):
+                    l, r = (c[2], c[3]) if c[1] in ("Lt", "Ne", "Ge") else (c[3], c[2])
+                    if plus_one_of_version(r) and ("len" in show(l).lower()):
+                        pushed = [e for e in p.calls("Vec<T, A>::push") if "SerializedEvolutionStep as BinaryDeserializer>::deserialize" in show(e[5][1])]
+                        if pushed or p.outcome[0] != "loopback":
+                            found = True
     R.check(found, b.key, "reads stored_version+1 steps", "the header loop does not range over 0..=stored_version")
     return R
